@@ -650,12 +650,19 @@ type simCluster struct {
 	onAsk        func() // called (under mu) when a node emits ASK
 	connSeq      int
 	nodesDelayMs int // CLUSTER NODES answers this late (the text is the layout at the time the command arrived)
+	// masters that exist only in the CLUSTER NODES text (address, slot range): e.g. a node whose connects hang
+	extra []simExtraMaster
 	// gossip lag (Model/Gossip.v): slot -> the finalisation of its migration has reached the old owner but not yet the
 	// new one, which - still "importing, not owner" in its own view - sends commands without ASKING back to the old owner
 	lag    map[int]*simLag
 	logSeq int
 	// the next keyed command that is executed loses its reply: the node closes the connection instead of answering
 	dropNextExec bool
+}
+
+type simExtraMaster struct {
+	addr   string
+	lo, hi int
 }
 
 type simLag struct {
@@ -840,6 +847,10 @@ func (cl *simCluster) clusterNodesText(me int) string {
 			}
 		}
 		b.WriteString("\n")
+	}
+	for i, x := range cl.extra {
+		port := x.addr[strings.LastIndex(x.addr, ":")+1:]
+		fmt.Fprintf(&b, "%040x %s@1%s master - 0 0 %d connected %d-%d\n", 0xeee000+i, x.addr, port, 900+i, x.lo, x.hi)
 	}
 	return b.String()
 }
